@@ -118,6 +118,13 @@ def run(ctx):
     kinds = [k for k in toks.LEX.keys() if k not in TERMS]
     alpha = [k for k in toks.ALPHA16 if k not in TERMS] + ["Forward", "OSqrBracket", "Func"]
     short = [[T(k) for k in s] for s in toks.exhaustive(alpha, 2 if q else 3)]
+    # bodies that break off INSIDE a list: after a separator, inside the second / third item, inside nested lists
+    I_ = lambda n: T("Identifier", n)
+    for tail in ([T("Minus", "-")], [T("OBracket")], [T("Not", "not")], [I_("b"), T("Comma", ","), T("Not", "not")], [T("OSqrBracket"), T("NumericLiteral", "1"), T("Comma", ","), T("OBracket")],
+                 [I_("g"), T("OBracket"), I_("c"), T("Comma", ",")], []):
+        short.append([I_("Total"), T("Equals", "="), I_("Foo"), T("OBracket"), I_("a"), T("Comma", ",")] + tail)
+        short.append([T("OSqrBracket"), T("NumericLiteral", "1"), T("Comma", ",")] + tail)
+        short.append([I_("x"), T("Dot", "."), I_("f"), T("OBracket"), I_("a"), T("Comma", ",")] + tail)
     # 1. generated programs; keep those the implementation parses without any diagnostic (well-formed originals)
     progs = []
     nprog = 400 if q else 4000
@@ -141,7 +148,7 @@ def run(ctx):
     for pi, (g, groups, meths) in enumerate(progs):
         for (gi, h, e) in meths:
             bodies = []
-            if pi < (20 if q else 60):
+            if pi < (30 if q else 60):
                 bodies += short
             # runs of operands of every small length (a stale cache entry needs the right remaining length)
             bodies += [[T("Identifier", "x%d" % j) for j in range(n)] for n in range(1, 7)]
